@@ -1,0 +1,18 @@
+//go:build verif
+
+package main
+
+// Contracts of the stand-alone server binary (comment-only; read by /verif's verifier under the build tag verif).
+
+//@ ghost var roOpt sftp.ServerOption
+//@ ghost var roIdx int
+
+// The -R flag makes the server read-only whatever other flags are given: the option list handed to NewServer contains
+// the ReadOnly() option whenever -R was set.
+//@ func main
+//@   property C09
+//@   update after call sftp.ReadOnly#1: ghost.roOpt = ret
+//@   update after call sftp.ReadOnly#1: ghost.roIdx = len(options)
+//@   assert before call sftp.NewServer#1: readOnly ==> 0 <= ghost.roIdx && ghost.roIdx < len(arg1) && arg1[ghost.roIdx] == ghost.roOpt
+//@   assume after call sftp.NewServer#1: ret1 == nil
+// (assumed: the two options this program passes, WithDebug and ReadOnly, never fail -- main itself ignores the error)
